@@ -32,7 +32,8 @@ type mkey string
 
 func (mkey) String() string { return "[key]" }
 
-var keyNames = []mkey{"k0", "k1", "k2"}
+// the second key is the empty string: a key like any other
+var keyNames = []mkey{"k0", "", "k2"}
 
 // latencies of the supplied function: odd milliseconds, so that an execution that
 // starts on the (even) call grid never ends on it; 0 is the degenerate case.
@@ -63,9 +64,9 @@ type Call struct {
 // kname names a logical key (memoizer*3 + key).
 func kname(lk int) string {
 	if lk < 3 {
-		return string(keyNames[lk])
+		return fmt.Sprintf("%q", string(keyNames[lk]))
 	}
-	return fmt.Sprintf("%s on memoizer #%d", string(keyNames[lk%3]), lk/3)
+	return fmt.Sprintf("%q on memoizer #%d", string(keyNames[lk%3]), lk/3)
 }
 
 type Case struct {
@@ -603,10 +604,10 @@ func propFree(c FreeCase, r *pbt.R) error {
 		wg.Wait()
 		for k := 0; k < c.Keys; k++ {
 			if overlap[k].Load() > 0 {
-				return fmt.Errorf("%+v round %d: two executions for key %s overlapped", c, round, string(keyNames[k]))
+				return fmt.Errorf("%+v round %d: two executions for key %q overlapped", c, round, string(keyNames[k]))
 			}
 			if settled[k] != 0 && execCount[k].Load() != before[k] {
-				return fmt.Errorf("%+v round %d: the function ran again for %s although %d was cached (no expiry)", c, round, string(keyNames[k]), settled[k])
+				return fmt.Errorf("%+v round %d: the function ran again for %q although %d was cached (no expiry)", c, round, string(keyNames[k]), settled[k])
 			}
 		}
 		for g, rs := range results {
@@ -621,10 +622,10 @@ func propFree(c FreeCase, r *pbt.R) error {
 			}
 			k, ok := produced.Load(rs.val)
 			if !ok || k.(int) != rs.key {
-				return fmt.Errorf("%+v round %d caller %d (%s): received %d, which was not produced for its key", c, round, g, string(keyNames[rs.key]), rs.val)
+				return fmt.Errorf("%+v round %d caller %d (%q): received %d, which was not produced for its key", c, round, g, string(keyNames[rs.key]), rs.val)
 			}
 			if settled[rs.key] != 0 && rs.val != settled[rs.key] {
-				return fmt.Errorf("%+v round %d caller %d (%s): received %d although %d was cached", c, round, g, string(keyNames[rs.key]), rs.val, settled[rs.key])
+				return fmt.Errorf("%+v round %d caller %d (%q): received %d although %d was cached", c, round, g, string(keyNames[rs.key]), rs.val, settled[rs.key])
 			}
 		}
 	}
@@ -885,8 +886,18 @@ func sweepProp(c SweepCase, r *pbt.R) error {
 					int64(exp), cl, n, round, k, runs[k])
 			}
 		}
+		// short-lived neighbours under other keys, stored through the memoizer's exported cache (as many as there are memoized
+		// keys, twice as many in the second round): the cleanup purges them during the pause - and nothing else
+		for j := 0; j < n*(round+1); j++ {
+			if err := m.Cache.Set(fmt.Sprintf("neighbour-%d-%d", round, j), -1, 3*time.Millisecond); err != nil {
+				return fmt.Errorf("Memoizer(expiration %d ns, cleanup every %v): storing a neighbour entry in its cache failed: %v", int64(exp), cl, err)
+			}
+		}
 		time.Sleep(120 * time.Millisecond)
 		synctest.Wait()
+		if got := m.Cache.Count(); got != n {
+			return fmt.Errorf("Memoizer(expiration %d ns, cleanup every %v), %d keys, after round %d and 120ms: its cache counts %d entries, want the %d memoized ones (the short-lived neighbours are purged, nothing else)", int64(exp), cl, n, round, got, n)
+		}
 	}
 	r.NonTrivialIf(true, "every case")
 	return nil
@@ -899,7 +910,7 @@ func TestProp(t *testing.T) {
 			Rule: "call timelines in virtual time (synctest): callers start on an even-millisecond grid (gaps 0/2/10/50ms enumerated, 0..68ms random), each passes a function with latency {0,3ms,21ms} and outcome {value,error}; memoizer expiry {none,40ms}; 1..3 keys, up to 16 callers. " +
 				"Oracle on exact virtual instants: in-flight counter per key <= 1; every result stems from an execution for the same key that started before the call returned (errors: one that overlapped the call); a call starting strictly inside an execution gets its outcome at its end without running its own function; " +
 				"a call starting strictly after a successful execution and strictly before its expiry returns such a value at once without running; otherwise (off every boundary instant) the result comes from an execution started at the call's instant; no execution starts while an unexpired value is cached; every execution starts at the instant of a call for its key. " +
-				"Enumerated: every timeline of 1..3 (thorough 4) calls over 2 keys x 4 gaps x 3 latencies x 2 outcomes x 2 expiries. Non-trivial = some call joined a running execution, or came after a failed execution, or after expiry.",
+				"Enumerated: every timeline of 1..3 (thorough 4) calls over 2 keys (one of them the empty string) x 4 gaps x 3 latencies x 2 outcomes x 2 expiries. Non-trivial = some call joined a running execution, or came after a failed execution, or after expiry.",
 			Enum: enum, Gen: gen, Prop: prop, OutOfEnum: outOfEnum,
 			RapidQuick: 1500, RapidThorough: 20000,
 			Bubble: true,
@@ -938,7 +949,7 @@ func TestProp(t *testing.T) {
 		},
 		&pbt.Check[SweepCase]{
 			Name: "sweep",
-			Rule: "memoizers WITH a background cleanup (every 1, 5 or 50ms) whose entries have no deadline (expiration 0, NoExpiration, -1s, the most negative Duration) or a distant one (1h), in virtual time: 1..50 keys are memoized, and asked for again 120ms and 240ms later: every function runs once, every value is right. Enumerated: 5 expirations x 3 intervals x {1, 2, 7} keys; random: up to 50 keys. Non-trivial = every case.",
+			Rule: "memoizers WITH a background cleanup (every 1, 5 or 50ms) whose entries have no deadline (expiration 0, NoExpiration, -1s, the most negative Duration) or a distant one (1h), in virtual time: 1..50 keys are memoized (after each round as many, then twice as many, 3ms neighbour entries under other keys are stored through the exported cache and purged by the cleanup), and asked for again 120ms and 240ms later: every function runs once, every value is right. Enumerated: 5 expirations x 3 intervals x {1, 2, 7} keys; random: up to 50 keys. Non-trivial = every case.",
 			Enum: func(s pbt.Src, _ bool) SweepCase {
 				return SweepCase{Exp: s.Intn(len(sweepExps)), Cleanup: s.Intn(len(sweepCleanups)), Keys: pbt.Pick(s, 1, 2, 7)}
 			},
